@@ -1784,6 +1784,12 @@ class Interp:
         rec(0, env)
 
     def e_ListComp(self, e, env, module):
+        if len(e.generators) == 1 and not e.generators[0].ifs:
+            it = self.eval(e.generators[0].iter, env, module)
+            if getattr(it, "_symbolic_iter", False) and hasattr(it, "_at"):
+                from .symcoll import LazyComp
+
+                return LazyComp(self, e.elt, e.generators[0].target, it, env, module)
         out = []
         self._comp(e.generators, env, module, lambda en: out.append(self.eval(e.elt, en, module)))
         return out
